@@ -56,7 +56,7 @@ Lemma inv_step_direct s o : inv s -> inv (st (estep s (Direct o))).
 Proof.
   unfold inv. intros Hi.
   destruct s as [p a r pr se t]; unfold estep, set_run; cbn [protected allow_protect run_mode prog secret tainted] in *.
-  destruct o as [ | |r'| |m| | | | | |v| | | |v| | | |r'|em|hl|hl|f|f|f| |rs| | | | |la fw];
+  destruct o as [ | |r'| |m| | | | | |v| | | |v| | | |r'|em|hl|hl|f|f|f| |rs| | | | | |la fw];
     try destruct m; try destruct f; try destruct em; try destruct hl; try destruct fw; try destruct la;
     destruct p, a, se, t; open_step; split_ifs;
     cbn [protected allow_protect run_mode prog secret tainted fst snd negb andb orb] in *;
@@ -66,7 +66,7 @@ Qed.
 Lemma inv_step_prog s o : inv s -> self_unprotect (Prog o) = false -> inv (st (estep s (Prog o))).
 Proof.
   unfold inv. intros Hi Hn.
-  destruct o as [ | |r| |m| | | | | |v| | | |v| | | |r|em|hl|hl|f|f|f| |rs| | | | |la fw];
+  destruct o as [ | |r| |m| | | | | |v| | | |v| | | |r|em|hl|hl|f|f|f| |rs| | | | | |la fw];
     try destruct m; try destruct f; try destruct em; try destruct hl; try destruct fw; try destruct la;
     destr_state s; open_step; cbn in Hi, Hn |- *; split_ifs;
     cbn [protected allow_protect run_mode prog secret tainted fst snd negb andb orb] in *;
@@ -102,7 +102,7 @@ Lemma flag_cleared_only s e :
   replaces_program e = true \/ self_unprotect e = true.
 Proof.
   destruct e as [o|o];
-    (destruct o as [ | |r| |m| | | | | |v| | | |v| | | |r|em|hl|hl|f|f|f| |rs| | | | |la fw];
+    (destruct o as [ | |r| |m| | | | | |v| | | |v| | | |r|em|hl|hl|f|f|f| |rs| | | | | |la fw];
      try destruct m; try destruct f; try destruct em; try destruct hl; try destruct fw; try destruct la;
      destr_state s; open_step; cbn; split_ifs;
      cbn [protected allow_protect run_mode prog secret tainted fst snd negb andb orb] in *;
@@ -114,13 +114,13 @@ Qed.
 (* FULL statement: whatever is typed at the prompt while the flag is set, no plain program text is exposed;
    the only observation at all is the cipher text written by SAVE ,P *)
 Lemma no_plain s o :
-  protected s = true -> run_mode s = false ->
+  protected s = true -> run_mode s = false -> tainted s = false ->
   ob (step s o) = NoObs \/ (o = OSave SP /\ ob (step s o) = cipher (prog s)).
 Proof.
-  intros Hp Hr.
-  destruct o as [ | |r| |m| | | | | |v| | | |v| | | |r|em|hl|hl|f|f|f| |rs| | | | |la fw];
+  intros Hp Hr Ht.
+  destruct o as [ | |r| |m| | | | | |v| | | |v| | | |r|em|hl|hl|f|f|f| |rs| | | | | |la fw];
     try destruct m; try destruct f; try destruct em; try destruct hl; try destruct fw; try destruct la;
-    destruct s as [p a r0 pr se t]; cbn in Hp, Hr; subst p r0;
+    destruct s as [p a r0 pr se t]; cbn in Hp, Hr, Ht; subst p r0 t;
     open_step; split_ifs; auto.
 Qed.
 
@@ -140,7 +140,7 @@ Lemma refused s o :
   step s o = (s, Err E_IFC, NoObs).
 Proof.
   intros Hp Hr Hm.
-  destruct o as [ | |r| |m| | | | | |v| | | |v| | | |r|em|hl|hl|f|f|f| |rs| | | | |la fw];
+  destruct o as [ | |r| |m| | | | | |v| | | |v| | | |r|em|hl|hl|f|f|f| |rs| | | | | |la fw];
     try discriminate Hm;
     try destruct m; try destruct em; try destruct hl; try destruct fw; try discriminate Hm;
     destruct s as [p a r0 pr se t]; cbn in Hp, Hr; cbn [must_fail prog] in Hm; subst p r0;
@@ -165,13 +165,14 @@ Proof.
   assert (Ha' : allow_protect s' = true).
   { subst s'. clear Hi Hall Hs Hi'. revert s Ha. induction es as [|e es IH]; intros s Ha; cbn; [assumption|].
     apply IH. destruct e as [o'|o'];
-      (destruct o' as [ | |r| |m| | | | | |v| | | |v| | | |r|em|hl|hl|f|f|f| |rs| | | | |la fw];
+      (destruct o' as [ | |r| |m| | | | | |v| | | |v| | | |r|em|hl|hl|f|f|f| |rs| | | | | |la fw];
        try destruct m; try destruct f; try destruct em; try destruct hl; try destruct fw; try destruct la;
        destr_state s; open_step; split_ifs; cbn in *; congruence). }
-  destruct (Hi' Ha' Hs) as [Hp _].
+  destruct (Hi' Ha' Hs) as [Hp Ht].
   cbn [estep].
   assert (Hp' : protected (set_run s' false) = true) by (destruct s'; exact Hp).
-  destruct (no_plain (set_run s' false) o Hp' eq_refl) as [H|[_ H]].
+  assert (Ht' : tainted (set_run s' false) = false) by (destruct s'; exact Ht).
+  destruct (no_plain (set_run s' false) o Hp' eq_refl Ht') as [H|[_ H]].
   - rewrite H. exact I.
   - rewrite H. unfold cipher. destruct (prog (set_run s' false)); exact I.
 Qed.
@@ -242,7 +243,7 @@ Proof.
   destruct s1 as [p1 a1 r1 pr1 se1 t1]; destruct s2 as [p2 a2 r2 pr2 se2 t2].
   cbn in Ha, Hr, Hp, Hs, Ht, Hrun. subst a2 r2 pr2 se2 t2 r1.
   unfold same_but_flag.
-  destruct o as [ | |r| |m| | | | | |v| | | |v| | | |r|em|hl|hl|f|f|f| |rs| | | | |la fw];
+  destruct o as [ | |r| |m| | | | | |v| | | |v| | | |r|em|hl|hl|f|f|f| |rs| | | | | |la fw];
     cbv [flag_sensitive run_fires g_renum g_cb_renum g_delete g_cb_delete orb] in Hf;
     try discriminate Hf;
     try destruct m; try destruct f; try destruct em; try destruct hl; try destruct fw; try destruct la; try discriminate Hf;
